@@ -44,6 +44,15 @@ pub fn dispatch(op: &str, req: &Value) -> Result<Value, String> {
             let then = req["then"].as_str().unwrap_or("drain").to_string();
             let settle = req["settle_ms"].as_u64().unwrap_or(300);
             let panic_at = req["panic_at"].as_i64().unwrap_or(-1);
+            if req["prior_pipe"].as_bool().unwrap_or(false) {
+                // a multi-step history: an earlier threaded pipe was used to the end, after which the application (or
+                // another part of the crate) installed its own panic hook
+                let first: Vec<usize> = (0..4usize).pipe(Arc::new(|i: usize| i), w.max(1)).collect();
+                if first != vec![0, 1, 2, 3] {
+                    return Err("prior pipe gave wrong output".to_string());
+                }
+                std::panic::set_hook(Box::new(|_| {}));
+            }
             let pulled = Arc::new(AtomicUsize::new(0));
             let processed = Arc::new(Mutex::new(vec![0usize; n.min(64)]));
             let dropped = Arc::new(AtomicUsize::new(0));
